@@ -599,6 +599,9 @@ def add_comments(j, rng, dup_ids, p=0.25, top=True):
     def junk():
         r = rng.random()
         i = rng.choice(dup_ids) if dup_ids else "zz"
+        if r < 0.1:
+            # a plate under an underscore key (a list, so that it could be expanded)
+            return [{"type": "Plate", "range": "0:2", "object": {"id": "us.*", "type": "VLeaf"}}]
         if r < 0.3:
             return "free text"
         if r < 0.6:
@@ -610,6 +613,11 @@ def add_comments(j, rng, dup_ids, p=0.25, top=True):
     def ign():
         i = rng.choice(dup_ids) if dup_ids else "zz"
         d = {"id": i, "type": rng.choice(["VLeaf", "Nope"]), "ignore": rng.choice([True, 1, "yes", 2.5, [0]])}
+        if rng.random() < 0.3:
+            # an ignored PLATE whose clones would re-define ids of the specification (or exist at all): features interact
+            d = {"type": rng.choice(["Plate", "torchtree.Plate"]), "range": rng.choice(["0:2", "1:2", "0:1"]),
+                 "object": {"id": rng.choice([i[:-1] + "*" if i and i[-1].isdigit() else i + "*", "ig.*"]), "type": "VLeaf"},
+                 "ignore": rng.choice([True, 1, "yes"])}
         items = list(d.items())
         rng.shuffle(items)
         return dict(items)
